@@ -25,7 +25,7 @@ ASSURANCE = {
     'C08': 'Invariant at every source pull and scheduler step: pulled - delivered <= the documented look-ahead bound, running invocations <= concurrency; nothing runs after close() returned; holds for every producer/consumer speed ratio the scheduler can produce.',
     'C09': 'Worker.run driven directly with 1-3 competing workers. Oracle: every call argument is a non-empty list of <= batch_size valid inputs (a single value when batch_size is 0); rejected / pre-failed elements never reach call; every accepted input is in exactly one batch and gets exactly one correct output; a request is served without more input arriving and (exact clock) within batch_wait_time of the first element of its batch; every worker forwards the end marker.',
     'C10': 'Oracle: tee pulls nothing at construction; the source is pulled exactly once per element and (invariant at every scheduler step) never more than buffer_size+2 elements beyond the slowest fork; each fork yields the same elements and ends the same way as the source (same failure at the same position); no fork waits forever for another (deadlock / no-progress verdict), for every relative speed and stop pattern of the forks and a failing source.',
-    'C11': 'Fault = which worker (leaf, index) fails to initialise, in which enter/exit cycle; workload histories incl. abandoned bulky streams. Oracle: enter raises that error and leaves no thread/process; exit returns within bounded virtual time with all library threads and simulated processes gone; the same object works again (backlog 0 on re-entry, reference answers). Every fail site of every generated tree is enumerated over the runs.',
+    'C11': 'Fault = which worker (leaf, index) fails to initialise, in which enter/exit cycle; workload histories incl. abandoned bulky streams. Oracle: enter raises that error and leaves no thread/process; exit returns within bounded virtual time with all library threads and simulated processes gone; the same object works again (backlog 0 on re-entry, reference answers). The fail site is drawn uniformly from all (leaf, worker index) sites of the generated tree, the failing cycle from all cycles: sampled, not enumerated.',
     'C12': 'Fault = how the target ends: return, raise (classes incl. unpicklable / multi-arg), sys.exit(codes), kill at arbitrary points incl. mid-message. Oracle: result/exception/exitcode/join/done/wait report exactly that outcome and never hang.',
     'C13': 'Reference model of per-object reference counts over creation, copying, pickling to children, nesting, drop and GC in parent and (simulated) client/child processes; GC and finalizer timing, client-process exits and thread switches chosen by the seed. Oracle: hosted object alive iff the model says some proxy refers to it; destroyed exactly once after the last goes.',
     'C14': 'Oracle: results, attribute access and state changes through a proxy equal the same operations on a local twin; errors are raised in the caller (not returned) with class, args and server-side traceback text; with concurrent callers in several threads / (simulated) processes no update is lost or duplicated, per-process order is preserved and the final state equals the reference; managed() results behave as proxies.',
